@@ -82,6 +82,16 @@ def parseSub (s : String) : Option Sub :=
   | "upd" :: rest => (subKv rest "n").map .upd
   | "del" :: rest => (subKv rest "n").map .del
   | "roomadd" :: rest => (subKv rest "r").map .roomadd
+  | "stream" :: rest =>
+    -- rows:10.1.0+11.1.1
+    (rest.findSome? fun t =>
+      match t.splitOn ":" with
+      | ["rows", v] =>
+        (v.splitOn "+").mapM fun x =>
+          match (x.splitOn ".").mapM String.toNat? with
+          | some [n, r, e] => some (n, r, e)
+          | _ => none
+      | _ => none).bind fun rows => if rows.isEmpty then none else some (.stream rows)
   | _ => none
 
 def parseOp (toks : List String) : Option Op :=
@@ -112,7 +122,13 @@ def parseOp (toks : List String) : Option Op :=
     let subs ← match kv? rest "ops" with
       | some s => ((s.splitOn ";").filter (· ≠ "")).mapM parseSub
       | none => none
-    some (.mix (← nat? rest "s") subs)
+    let pull ← match kv? rest "pull" with
+      | none => some none
+      | some v =>
+        match (v.splitOn ":").mapM String.toNat? with
+        | some [t, r] => some (some (t, r))
+        | _ => none
+    some (.mix (← nat? rest "s") subs pull)
   | _ => none
 
 def stepLine (ds : Option DState) (line : String) : Option DState × String :=
@@ -139,7 +155,7 @@ def stepLine (ds : Option DState) (line : String) : Option DState × String :=
           | .skip => "skip"
           | .obs evs g =>
             match op with
-            | .mix _ _ => fmtMix d.nsites evs g
+            | .mix _ _ _ => fmtMix d.nsites evs g
             | .pull _ _ _ =>
               -- `ok+def`: the room definition was imported
               if evs.any (fun e => match e with | .roomEv _ => true | _ => false) then
